@@ -18,5 +18,6 @@ func main() {
 	fmt.Println(synth.Channels(3))
 	fmt.Println(synth.CondQueue(5))
 	fmt.Println(synth.Shadow())
+	fmt.Println(synth.NamedChan())
 	fmt.Println(synth.Summary())
 }
